@@ -1263,16 +1263,26 @@ type InputFile struct {
 }
 
 // inputReader remembers the first error (other than io.EOF) of the reader it
-// wraps: json.Decoder.More does not report read errors
+// wraps and keeps returning it: json.Decoder.More does not report read
+// errors, and the decoder reads on after an error that came together with
+// data or that the reader recovers from, which would put bytes from both
+// sides of the fault into one value
 type inputReader struct {
 	reader io.Reader
 	err    error
 }
 
 func (r *inputReader) Read(p []byte) (int, error) {
+	if r.err != nil {
+		return 0, r.err
+	}
 	n, err := r.reader.Read(p)
-	if err != nil && err != io.EOF && r.err == nil {
+	if err != nil && err != io.EOF {
 		r.err = err
+		if n > 0 {
+			// deliver the bytes that came with the error first
+			return n, nil
+		}
 	}
 	return n, err
 }
